@@ -55,6 +55,15 @@ def case_task(states):
                 exp = torch.tensor([math.prod(q if b else 1 - q for q, b in zip(p, row)) for row in xs.tolist()], dtype=torch.float64)
                 if not torch.allclose(torch.exp(lp), exp, atol=1e-12):
                     fail("density", "Bernoulli p=%s: masses %s differ from prod p^x (1-p)^(1-x)" % (p, torch.exp(lp).tolist()))
+                # the same lattice far out on the logit scale (saturated units, single and double precision):
+                # the masses still sum to one and every one of them is a number
+                for dt_, big in ((torch.float32, 20.0), (torch.float32, 60.0), (torch.float64, 45.0)):
+                    sat = torch.tensor([[big * (1.0 if q >= 0.5 else -1.0) * (1 + 0.1 * k) for k, q in enumerate(p)]], dtype=dt_)
+                    lps = d.log_prob(xs.to(dt_), sat.expand(2 ** n, n))
+                    tot_s = float(torch.exp(lps.double()).sum())
+                    if not bool(torch.isnan(lps).logical_not().all()) or abs(tot_s - 1.0) > 1e-5:
+                        fail("not_normalised", "Bernoulli with logits %s (%s): log-masses %s sum to %s" % (sat.tolist()[0], str(dt_).split(".")[-1], lps.tolist()[:4], tot_s))
+                        break
                 mu = d.mean(ctx)
                 if tuple(mu.shape) != (1, n) or not torch.allclose(mu, torch.tensor([p], dtype=torch.float64), atol=1e-12):
                     fail("mean", "Bernoulli mean %s for p=%s" % (mu.tolist(), p))
@@ -98,6 +107,21 @@ def case_task(states):
                         dn.log_std_.copy_(ls[:1].reshape(dn.log_std_.shape))
                     models.append(("DiagonalNormal", dn, None, mu[:1].expand_as(mu), ls[:1].expand_as(ls)))
                 for name, d, ctx, m_, l_ in models:
+                    if name == "DiagonalNormal":
+                        # history: another parameter set, evaluation mode, used; then these parameters arrive
+                        # through load_state_dict (rows odd: written in place) while still in evaluation mode
+                        want_sd = {k: v.clone() for k, v in d.state_dict().items()}
+                        with torch.no_grad():
+                            d.mean_.add_(0.7)
+                            d.log_std_.add_(1.1)
+                        d.eval()
+                        d.log_prob(x)
+                        if rows % 2 == 0:
+                            d.load_state_dict(want_sd)
+                        else:
+                            with torch.no_grad():
+                                d.mean_.copy_(want_sd["mean_"])
+                                d.log_std_.copy_(want_sd["log_std_"])
                     lp = d.log_prob(x, ctx) if ctx is not None else d.log_prob(x)
                     exp = (-0.5 * ((x - m_) / torch.exp(l_)) ** 2).reshape(rows, -1).sum(1) - l_.reshape(rows, -1).sum(1) - units * HL2P
                     if tuple(lp.shape) != (rows,) or not torch.allclose(lp.double(), exp, atol=1e-9):
